@@ -116,11 +116,13 @@ fn check(ctx: &mut Ctx, c: &Case) {
     }
     s.push_str("end\n");
     files.insert(src_rel.clone(), s.into_bytes());
+    // input kind 3: only the includer is named, so the source under test enters the build as a
+    // dependency; with a source at depth >= 2 the includer sits above it (in `a`), otherwise beside (`z`)
+    let inc_dir = if c.input_kind == 3 && c.depth >= 2 { "a" } else { "z" };
     if c.with_includer {
         // a second-pass run: the includer has a dependency first, then a command
-        let inc_dir = "z";
         let target = crate::gen::rel(inc_dir, &src_rel[..src_rel.len() - 6]);
-        files.insert("z/inc.txt.txtpp".into(), format!("-TXTPP#include {target}\n-TXTPP#run pwd -P\n").into_bytes());
+        files.insert(format!("{inc_dir}/inc.txt.txtpp"), format!("-TXTPP#include {target}\n-TXTPP#run pwd -P\n").into_bytes());
     }
     materialize(&root, &files, &[]);
     let rec_path = parent.join("rec.sh");
@@ -150,9 +152,10 @@ fn check(ctx: &mut Ctx, c: &Case) {
     let mut inputs: Vec<String> = match c.input_kind {
         1 if c.depth > 0 => vec!["a".into()],
         2 => vec![src_rel[..src_rel.len() - 6].to_string()],
+        3 if c.with_includer => vec![format!("{inc_dir}/inc.txt")],
         _ => vec![".".into()],
     };
-    if c.with_includer && c.input_kind != 0 {
+    if c.with_includer && c.input_kind != 0 && c.input_kind != 3 {
         inputs.push("z".into());
     }
     let cfg = RunCfg { base, inputs, mode: c.mode.clone(), threads: c.threads, recursive: true, trailing: true, shell };
@@ -290,10 +293,10 @@ fn check(ctx: &mut Ctx, c: &Case) {
         }
     }
     if c.with_includer {
-        let inc = String::from_utf8_lossy(&std::fs::read(root.join("z/inc.txt")).unwrap_or_default()).to_string();
+        let inc = String::from_utf8_lossy(&std::fs::read(root.join(inc_dir).join("inc.txt")).unwrap_or_default()).to_string();
         let last = inc.lines().filter(|l| !l.is_empty()).last().unwrap_or("");
-        if !c.recorder && last != root.join("z").to_string_lossy() {
-            ctx.violation(format!("C17:wrong-working-directory-second-pass:{sig_ctx}"), format!("second-pass `pwd -P` in z/inc.txt.txtpp printed {last:?}"), c.json());
+        if !c.recorder && last != root.join(inc_dir).to_string_lossy() {
+            ctx.violation(format!("C17:wrong-working-directory-second-pass:{sig_ctx}"), format!("second-pass `pwd -P` in {inc_dir}/inc.txt.txtpp printed {last:?}"), c.json());
         }
     }
     // syscall view
@@ -511,6 +514,48 @@ fn loud_stderr(ctx: &mut Ctx, r: &mut StdRng) {
     ctx.scratch.discard(&root);
 }
 
+/// The configured shell is honoured by every CLI spelling that accepts it: `txtpp -s SH file`,
+/// `txtpp -N --shell SH file`, `txtpp verify -s SH file`, `txtpp verify --shell SH file`. The shell
+/// is the recorder, whose output differs from what `sh -c` would print, so a verify that falls back
+/// to the default shell sees a mismatch, and a build that does shows `hi` instead of the dump.
+fn shell_option_spellings(ctx: &mut Ctx, r: &mut StdRng) {
+    let parent = ctx.scratch.fresh();
+    let root = parent.join("proj");
+    let mut files = Files::new();
+    files.insert("s.txt.txtpp".into(), b"begin\n-TXTPP#run echo hi\nend\n".to_vec());
+    materialize(&root, &files, &[]);
+    let rec = parent.join("rec.sh");
+    std::fs::write(&rec, RECORDER).unwrap();
+    let _ = std::process::Command::new("chmod").arg("+x").arg(&rec).status();
+    let sh = rec.display().to_string();
+    let build_spellings: [Vec<&str>; 3] = [vec!["-q", "-s", &sh, "s.txt"], vec!["-q", "--shell", &sh, "-j", "1", "s.txt"], vec!["-N", "-q", "-s", &sh, "s.txt"]];
+    let verify_spellings: [Vec<&str>; 3] = [vec!["verify", "-q", "-s", &sh, "s.txt"], vec!["verify", "--shell", &sh, "-q", "s.txt"], vec!["-q", "verify", "-q", "-j", "2", "-s", &sh, "s.txt"]];
+    let b = &build_spellings[r.gen_range(0..3)];
+    let v = &verify_spellings[r.gen_range(0..3)];
+    let cj = json!({"kind": "shell-spellings", "build": b, "verify": v});
+    let to_args = |a: &Vec<&str>| a.iter().map(|x| x.to_string()).collect::<Vec<String>>();
+    let o = run_cli(&root, &to_args(b), &CliOpts::default());
+    ctx.evals += 1;
+    ctx.count("cli_shell_option_runs", 1);
+    let out = String::from_utf8_lossy(&std::fs::read(root.join("s.txt")).unwrap_or_default()).to_string();
+    if o.timed_out {
+        ctx.inconclusive("CLI watchdog (shell spellings)");
+    } else if o.code != Some(0) || !out.contains("arg=[echo hi]") {
+        ctx.violation("C17:cli-shell-option:build", format!("`txtpp {}`: the configured shell did not receive the command (exit {:?}, output {out:?})", b.join(" "), o.code), cj.clone());
+    } else {
+        let o = run_cli(&root, &to_args(v), &CliOpts::default());
+        ctx.evals += 1;
+        ctx.count("cli_shell_option_runs", 1);
+        if o.timed_out {
+            ctx.inconclusive("CLI watchdog (shell spellings)");
+        } else if o.code != Some(0) {
+            ctx.violation("C17:cli-shell-option:verify", format!("`txtpp {}` right after a build with the same shell failed: the configured shell was not used for verify ({})", v.join(" "), o.short()), cj.clone());
+        }
+    }
+    ctx.distinct.insert(crate::util::hash_str(&cj.to_string()));
+    ctx.scratch.discard(&parent);
+}
+
 fn guard_checks(ctx: &mut Ctx) {
     // the binary refuses to start when TXTPP_FILE is set
     let root = ctx.scratch.fresh();
@@ -576,7 +621,7 @@ fn run(ctx: &mut Ctx) {
             extra_args: if r.gen_bool(0.5) { vec!["-x".into(), "--flag=1".into()] } else { vec![] },
             cmd_lines: cmds[r.gen_range(0..cmds.len())].clone(),
             exit: ["0", "0", "0", "0", "1", "2", "255", "signal"][r.gen_range(0..8)].to_string(),
-            input_kind: r.gen_range(0..3),
+            input_kind: r.gen_range(0..4),
             recorder_relative: r.gen_bool(0.5),
             threads: [1, 2, 4][r.gen_range(0..3)],
             with_includer: r.gen_bool(0.3),
@@ -592,6 +637,9 @@ fn run(ctx: &mut Ctx) {
         if i % 8 == 4 {
             loud_stderr(ctx, &mut r);
         }
+        if i % 16 == 1 {
+            shell_option_spellings(ctx, &mut r);
+        }
         if i == 0 {
             ctx.sample(|| c.json());
         }
@@ -601,6 +649,13 @@ fn run(ctx: &mut Ctx) {
 fn replay(ctx: &mut Ctx, v: &Value) {
     if v["kind"].as_str() == Some("guard") {
         guard_checks(ctx);
+        return;
+    }
+    if v["kind"].as_str() == Some("shell-spellings") {
+        let mut r = StdRng::seed_from_u64(17);
+        for _ in 0..12 {
+            shell_option_spellings(ctx, &mut r);
+        }
         return;
     }
     if v["kind"].as_str() == Some("loud-stderr") {
